@@ -92,6 +92,9 @@ def cases(tier, seed):
             for nmol in (1, 2, 3):
                 for rot in ("cube0", "gen0"):
                     out.append({"family": "projection", "tshape": list(ts), "order": order, "nmol": nmol, "rot": rot})
+    # call histories on one simulator: what simulate / replace / copy / subset return must not depend on earlier calls
+    for order in (3, 1, 0):
+        out.append({"family": "history", "order": order, "depth": 2 if tier == "quick" else 3})
     return out
 
 
@@ -105,7 +108,60 @@ def run_case(case):
     import dask
 
     dask.config.set(scheduler="synchronous")
-    return {"paste": _paste, "additivity": _additivity, "clipping": _clipping, "readback": _readback, "projection": _projection}[case["family"]](case)
+    return {"paste": _paste, "additivity": _additivity, "clipping": _clipping, "readback": _readback, "projection": _projection, "history": _history}[case["family"]](case)
+
+
+def _history(case):
+    from scipy.spatial.transform import Rotation
+
+    from acryo import Molecules, pipe
+
+    from vf import history
+
+    order0 = case["order"]
+    shape = (14, 15, 16)
+    ta = data.particle_box((5, 5, 5)).astype(np.float32)
+    tb_fine = data.particle_box((8, 8, 8), blobs=[(1.0, (0.6, -0.8, 0.4), 1.6), (0.6, (-1.2, 1.0, 0.0), 1.2)]).astype(np.float32)
+    rot = Rotation.from_matrix(np.stack([data.rot_matrix("gen0"), data.rot_matrix("cube5")]))
+
+    def make():
+        sim = _sim(order0, 1.0)
+        sim.add_molecules(Molecules(np.array([[4.0, 5.5, 6.0], [9.5, 8.0, 10.25]]), rot), ta, name="a")
+        # a template given as a provider: rendered at the simulator's scale (original scale 0.5 -> zoomed by 1/2 at scale 1)
+        sim.add_molecules(Molecules(np.array([[7.0, 10.0, 4.5]])), pipe.from_array(tb_fine, 0.5), name="b")
+        return sim
+
+    ops = [
+        ("simulate", lambda sim: np.asarray(sim.simulate(shape))),
+        ("simulate_2d", lambda sim: np.asarray(sim.simulate_2d(shape[1:]))),
+        ("tilt_series", lambda sim: np.asarray(sim.simulate_tilt_series([-30.0, 0.0, 30.0], shape))),
+        ("copy.simulate", lambda sim: np.asarray(sim.copy().simulate(shape))),
+        ("subset(a).simulate", lambda sim: np.asarray(sim.subset("a").simulate(shape))),
+        ("subset(b).simulate", lambda sim: np.asarray(sim.subset(["b"]).simulate(shape))),
+        ("replace(scale=0.5).simulate", lambda sim: np.asarray(sim.replace(scale=0.5).simulate(shape))),
+        ("replace(scale=2).simulate_2d", lambda sim: np.asarray(sim.replace(scale=2.0).simulate_2d(shape[1:]))),
+        ("molecules", lambda sim: [np.asarray(sim.collect_molecules().pos), np.asarray(sim.collect_molecules().quaternion())]),
+    ]
+    for o in (0, 1, 3):
+        ops.append((f"replace(order={o}).simulate", lambda sim, o=o: np.asarray(sim.replace(order=o).simulate(shape))))
+    res = history.explore(make, ops, case["depth"], atol=1e-5, rtol=1e-5)
+    if res["raises_alone"]:
+        raise RuntimeError(f"harness: operations {res['raises_alone']} raise on a fresh simulator")
+    viol, seen = [], set()
+    for hist, why in res["failures"]:
+        sg = f"{ID}|history|{hist[-1].split('(')[0]}-after-{hist[-2].split('(')[0]}"
+        if sg not in seen:
+            seen.add(sg)
+            viol.append((sg, f"simulator of order {order0}: {hist[-1]} after {hist[:-1]} differs from the same call on a fresh simulator: {why}"))
+    for hist, err in res["errors"]:
+        sg = f"{ID}|history|raised"
+        if sg not in seen:
+            seen.add(sg)
+            viol.append((sg, f"{hist} raised {err}"))
+    if res["nondeterministic"]:
+        viol.append((f"{ID}|history|not-reproducible", f"{res['nondeterministic']} differ between two fresh simulators"))
+    return {"nontrivial": True, "outcome": f"history|{'viol' if viol else 'ok'}", "viol": viol,
+            "metrics": {"history_sequences": res["sequences"], "history_calls": res["calls"]}}
 
 
 def _sim(order, scale):
